@@ -908,26 +908,27 @@ func checkAccounts(r *runner, views map[string]*LedgerView) []Violation {
 	for _, name := range sortedKeys(views) {
 		v := views[name]
 		type ev struct {
-			first  gotime.Time
-			txOnly gotime.Time // earliest among transactions only
-			byTx   bool
-			byMeta bool
+			first gotime.Time
+			// noMetaLowering: what the value is if the event that creates the row sets it and only later
+			// TRANSACTIONS can lower it (the behaviour recorded as known finding F23); events are met in log order
+			noMetaLowering gotime.Time
+			byMeta         bool
 		}
 		want := map[string]*ev{}
 		note := func(addr string, t gotime.Time, isTx bool) {
 			e := want[addr]
 			if e == nil {
-				e = &ev{first: t}
+				e = &ev{first: t, noMetaLowering: t, byMeta: !isTx}
 				want[addr] = e
+				return
 			}
 			if t.Before(e.first) {
 				e.first = t
 			}
 			if isTx {
-				if !e.byTx || t.Before(e.txOnly) {
-					e.txOnly = t
+				if t.Before(e.noMetaLowering) {
+					e.noMetaLowering = t
 				}
-				e.byTx = true
 			} else {
 				e.byMeta = true
 			}
@@ -964,7 +965,7 @@ func checkAccounts(r *runner, views map[string]*LedgerView) []Violation {
 			e := want[a]
 			if !row.FirstUsage.Time.Equal(e.first) {
 				tag := ""
-				if e.byTx && e.byMeta && row.FirstUsage.Time.Equal(e.txOnly) {
+				if e.byMeta && row.FirstUsage.Time.Equal(e.noMetaLowering) {
 					tag = " [a metadata write earlier than the account's transactions does not lower it]"
 				}
 				vs = append(vs, Violation{prop, "first-usage-is-the-earliest-event", fmt.Sprintf("ledger %s: account %s has first usage %s; the earliest committed transaction timestamp / metadata write on it is %s%s", name, a, row.FirstUsage.Time.Format("2006-01-02T15:04:05.999999Z"), e.first.Format("2006-01-02T15:04:05.999999Z"), tag)})
